@@ -3,6 +3,7 @@ CONSTANTS
   Trees <- MTrees3
   Voters = {a, b, c, d}
   EqV = {a, b}
+  LeafBias = FALSE
   PVUnanimous = FALSE
   W <- UnitW
   MaxPV = 2
